@@ -258,8 +258,12 @@ class C30(Property):
                     real = p.stdout[:-1] if p.stdout.endswith("\n") else p.stdout
                 except subprocess.TimeoutExpired:
                     real = "<timeout>"
-                if real != v or _unhex_list(m) != [v]:
-                    ctx.disagree("dq rendering model vs /bin/sh", f"value {v!r}: sh exports {real!r}, Lean parse {m}", {"op": "env", "value": v})
+                # the model predicts what the shell makes of `"v"` (it refuses — `none` — whenever the shell would expand)
+                predicted = _unhex_list(m)
+                if predicted != [real]:
+                    ctx.disagree("dq rendering model vs /bin/sh", f"value {v!r}: sh exports {real!r}, Lean parse {predicted}", {"op": "env", "value": v})
+                if not any(c in v for c in '$`\\"') and real != v:
+                    ctx.fail("env:inert-value-not-verbatim", f"value {v!r} without $ ` \\ \" is exported as {real!r}", {"op": "env", "value": v})
 
     def explore(self, ctx: Ctx) -> None:
         self._quoting(ctx)
